@@ -4,6 +4,13 @@ from ..monitors import tree as MT
 from ..oracles import shadow as S
 from ..workloads import shapes as W9
 
+MANIFEST = dict(
+    technique='runtime contracts on visit_*/get_*/to_list/find_* vs reference recursion over left/right; exhaustive shape workload',
+    text="Every call of the three traversals and of the look-up methods made by the workload is decided by a monitor that recomputes the defining order from the link structure; the workload drives every tree shape up to the bound, every STOP position and every start node, so the claim is 'held on all shapes <= N nodes and on the random larger ones observed', not a proof for all sizes.",
+    note="Trusts CPython and our reference recursion; node classes are the repository's own.",
+    ref='DESIGN.md 3/C14',
+)
+
 RULE = (
     "W9: every binary tree shape (0/left-only/right-only/2 children per node) up to N nodes (quick 8, thorough 10) built "
     "from BinaryTreeNode and from MathExpression classes with repeated ids, x 3 orders x every STOP position x start at "
